@@ -120,6 +120,10 @@ pub fn run(ctx: &Ctx) {
         }
     });
     std::panic::set_hook(prev);
+    // sanitizer legs (Miri on the undo mechanism; run by ./check in the thorough tier)
+    if let Ok(p) = std::env::var("PV_SAN_SUMMARY") {
+        crate::props::san::merge_summary(ctx, &p);
+    }
     ctx.set_min_nontrivial(200);
 }
 
